@@ -637,6 +637,31 @@ func (e *episode) execRt(run *hx.Run, o rtOp) {
 	allValid := decOKb
 	anyGateMiss := false
 	var absItems []string
+	// harness self-check: for an unaltered body the independently decoded elements are, field for
+	// field, the objects that were encoded (so "delivered = decoded" below also means "delivered = sent")
+	if o.balt.kind == "none" && decOKb && len(infos) == len(wires) {
+		for i, w := range wires {
+			func() {
+				defer func() { _ = recover() }()
+				s := sampleOfWire(kind, max(hver, 0), w)
+				if s == nil {
+					return
+				}
+				par, err := s.toCore(o.node)
+				if err != nil {
+					return
+				}
+				if c, err := par.Clone(); err == nil {
+					par = c
+				}
+				b, _ := json.Marshal(par.SignedData)
+				if infos[i].coreJSON != nil && !bytes.Equal(b, infos[i].coreJSON) {
+					run.Count("rt:decoded-differs-from-encoded")
+					run.Violate("router:harness_codec_roundtrip", fmt.Sprintf("rt %s: element %d decoded by the harness differs from the object it encoded (enc=%s hdr=%s)", rt.name, i, o.enc, o.hdr))
+				}
+			}()
+		}
+	}
 	anyNil, anyOpaque := false, false
 	for _, in := range infos {
 		allValid = allValid && in.valid
